@@ -660,7 +660,7 @@ func (p *Proc) checkFrame(st *State, n ast.Node) {
 	}
 	al0 := p.heapGet(p.entry, "AL:", ArrSort(SInt, SBool))
 	for _, k := range sortedKeys(st.heap) {
-		if k == "AL:" || k == "$epoch" || whole[k] || strings.HasPrefix(k, "IF:") {
+		if k == "AL:" || k == "$epoch" || whole[k] || strings.HasPrefix(k, "IF:") || strings.HasPrefix(k, "G:$") {
 			continue
 		}
 		now := st.heap[k]
